@@ -12,7 +12,7 @@ from ..engine import Space
 PROPERTY = "C18"
 LEVEL = "model_checking"
 VARIANTS = ["asan"]
-RULE = ("all histories of <=2 (quick) / <=3 (thorough) calls over 21 call kinds after create(full, 50 ms limit) on one instance, with a status "
+RULE = ("all histories of <=2 (quick) / <=3 (thorough) calls over 24 call kinds after create(full, 50 ms limit) on one instance, with a status "
         "probe after every call; two-instance interleavings of 2 calls each; creation variants (full/basic/empty); invalid handles (NULL, foreign "
         "memory, destroyed); states = (globals set, config loaded, instance age) contexts reached, transitions = API calls; non-trivial = history "
         "contains a failing or limit-hitting call before another call")
@@ -42,6 +42,9 @@ CALLS = {
     "pp-only": ("p", "#define A 7\nA", 0, []),
     "unknown-type": ("x", "1", -5, []),
     "assembly-bad": ("a", "this is not assembly", -3, []),
+    "assembly-bad-char": ("a", "push 1 endStatement; ? $", -3, []),
+    "assembly-unknown-operator": ("a", "push 1 push 2 callBinary nosuchop", -3, []),
+    "assembly-ok": ("a", "push 1 push 2 callBinary + callUnary str callUnary diag_log", 0, ["3"]),
     "transpile": ("1", "a = 1", 0, []),
     "load-config": ("cfg", "class ApiCfg { v = 3; };", 0, []),
     "load-config-bad": ("cfg", "class { ", -3, []),
